@@ -84,6 +84,13 @@ func main() {
 	// 4. patched bbolt
 	bdir := bboltDir(repo, build)
 	patch(filepath.Join(bdir, "db.go"), filepath.Join(build, "bbolt", "db.go"), overlay, []edit{
+		// bbolt's own locks become scheduling points as well (types vMutex / vRWMutex appended below): without them a
+		// racy access between two bbolt calls is always ordered by the library-internal lock in a serialised run
+		{anchor: "\tbatchMu sync.Mutex\n", replace: "\tbatchMu vMutex\n"},
+		{anchor: "\trwlock   sync.Mutex   // Allows only one writer at a time.\n", replace: "\trwlock   vMutex   // Allows only one writer at a time.\n"},
+		{anchor: "\tmetalock sync.Mutex   // Protects meta page access.\n", replace: "\tmetalock vMutex   // Protects meta page access.\n"},
+		{anchor: "\tmmaplock sync.RWMutex // Protects mmap access during remapping.\n", replace: "\tmmaplock vRWMutex // Protects mmap access during remapping.\n"},
+		{anchor: "\tstatlock sync.RWMutex // Protects stats access.\n", replace: "\tstatlock vRWMutex // Protects stats access.\n"},
 		{anchor: "\tdb.ops.writeAt = db.file.WriteAt\n", after: "\tif VerifOpenHook != nil {\n\t\tVerifOpenHook(db)\n\t}\n"},
 		{appendText: `
 // ---- verif hooks (added by /verif/tools/prep; nil by default) ----
@@ -98,6 +105,56 @@ func (db *DB) VerifWrapWrite(w func(orig func(b []byte, off int64) (int, error))
 
 // VerifFile returns the open data file.
 func (db *DB) VerifFile() *os.File { return db.file }
+
+// VerifPoint, when set, is told about every operation on bbolt's own locks before (acquire) or after (release) it
+// happens; kinds follow zzverif/vsched (2 lock, 3 unlock, 4 write-lock request, 5 write unlock, 6 rlock, 7 runlock).
+var VerifPoint func(kind uint8, obj uintptr, arg int) bool
+
+type vMutex struct{ mu sync.Mutex }
+
+func (m *vMutex) Lock() {
+	if VerifPoint != nil {
+		VerifPoint(2, uintptr(unsafe.Pointer(m)), 0)
+	}
+	m.mu.Lock()
+}
+
+func (m *vMutex) Unlock() {
+	m.mu.Unlock()
+	if VerifPoint != nil {
+		VerifPoint(3, uintptr(unsafe.Pointer(m)), 0)
+	}
+}
+
+type vRWMutex struct{ mu sync.RWMutex }
+
+func (m *vRWMutex) Lock() {
+	if VerifPoint != nil && VerifPoint(4, uintptr(unsafe.Pointer(m)), 0) {
+		VerifPoint(2, uintptr(unsafe.Pointer(m)), 0)
+	}
+	m.mu.Lock()
+}
+
+func (m *vRWMutex) Unlock() {
+	m.mu.Unlock()
+	if VerifPoint != nil {
+		VerifPoint(5, uintptr(unsafe.Pointer(m)), 0)
+	}
+}
+
+func (m *vRWMutex) RLock() {
+	if VerifPoint != nil {
+		VerifPoint(6, uintptr(unsafe.Pointer(m)), 0)
+	}
+	m.mu.RLock()
+}
+
+func (m *vRWMutex) RUnlock() {
+	m.mu.RUnlock()
+	if VerifPoint != nil {
+		VerifPoint(7, uintptr(unsafe.Pointer(m)), 0)
+	}
+}
 `},
 	})
 	patch(filepath.Join(bdir, "bolt_unix.go"), filepath.Join(build, "bbolt", "bolt_unix.go"), overlay, []edit{
